@@ -589,3 +589,30 @@ def variadic_functions(repo):
         if fn.get("name") and any(a.get("nr") == "variadic" for a in fn.findall("arg")):
             out.update(x.strip() for x in fn.get("name").split(","))
     return out
+
+
+# ------------------------------------------------------------------ fixed corpus (shapes the generator has no kind for)
+CORPUS = [
+    ("nested-brace-init:vector-of-aggregates", "std::vector<std::pair<int, int>> c{{1, 0}};"),
+    ("nested-brace-init:vector-of-aggregates", "std::vector<std::vector<int>> c{{1, 0}};"),
+    ("nested-brace-init:stdMap", "std::map<int, int> c{{1, 0}};"),
+    ("initlist-duplicate-keys:stdSet", "std::set<int> c{1, 1};"),
+    ("initlist-duplicate-keys:stdSet", "std::set<int> c{a, 1};"),
+    ("initlist-duplicate-keys:stdSet", "std::set<int> c; c = {a, 1};"),
+    ("corpus:vector-nested-int", "std::vector<int> c{{1, 0}};"),
+    ("corpus:vector-init", "std::vector<int> c{1, 1, 2};"),
+    ("corpus:multiset-init", "std::multiset<int> c{1, 1};"),
+]
+
+
+def corpus_program():
+    lines = PRELUDE.rstrip("\n").split("\n")
+    sites, keys = {}, {}
+    for i, (key, decl) in enumerate(CORPUS):
+        lines.append("void f%d(int a) {" % i)
+        lines.append("  " + decl)
+        lines.append("  sink(%d, c.size());" % (i + 1))
+        sites[i + 1] = (len(lines), "c", "size", i)
+        keys[i] = (key, decl)
+        lines.append("}")
+    return "\n".join(lines) + "\n", sites, keys
